@@ -9,7 +9,8 @@ failure of any one call, and short writes are expressible (C13).
 
 Flags follow the constants evaluated by the extractor (`Gen/FsFacts.lean`):
 Create `O_CREAT|O_EXCL|O_WRONLY`, Open `O_RDONLY`, AtomicCreate's temporary file
-`O_CREAT|O_WRONLY|O_TRUNC` in the root directory under the name `fname ++ ".tmp"`.
+`O_CREAT|O_WRONLY|O_TRUNC` in the root directory under a name unique to the call
+(`fname.<pid>.<counter>.tmp`).
 Core Lean only.
 -/
 import GooseVerif.Model.Fs
@@ -29,9 +30,10 @@ structure Os where
   dirs : List (String × List (String × Nat))      -- sub-directories and their entries
   fds : List (Nat × OsFd)
   nfds : Nat
+  tmpCount : Nat                                  -- AtomicCreate calls so far (process id, call counter): unique temporary names
   deriving Repr
 
-def Os.empty : Os := { inodes := [], durable := [], root := [], dirs := [], fds := [], nfds := 0 }
+def Os.empty : Os := { inodes := [], durable := [], root := [], dirs := [], fds := [], nfds := 0, tmpCount := 0 }
 
 inductive Errno where
   | EEXIST | ENOENT | EBADF | EIO | EISDIR
@@ -163,7 +165,9 @@ inductive AcOut where
   | ok | panic | crashed
   deriving Repr, DecidableEq
 
-def tmpName (n : String) : String := n ++ ".tmp"
+/-- `fname.<pid>.<counter>.tmp`: the pair (process, counter) is modelled by one counter that is
+never reused (a new process has a new pid). -/
+def tmpName (n : String) (k : Nat) : String := n ++ "." ++ toString k ++ ".tmp"
 
 def acFlags : OFlags := { creat := true, wr := true, trunc := true }
 
@@ -185,13 +189,15 @@ def acWriteLoop (dist : Disturb) : Nat → Os → Nat → Bytes → List Nat →
       | none => acWriteLoop dist fuel r.1 fd (data.drop n) shorts.tail (k + 1)
 
 /-- `DirFs.AtomicCreate(dir, fname, data)`. The deferred `close` runs on return and on panic. -/
-def acRun (o : Os) (d n : String) (data : Bytes) (dist : Disturb) : Os × AcOut :=
-  -- syscall 0: openat(root, fname.tmp, O_CREAT|O_WRONLY|O_TRUNC)
+def acRun (o0 : Os) (d n : String) (data : Bytes) (dist : Disturb) : Os × AcOut :=
+  let tmp := tmpName n o0.tmpCount
+  let o := { o0 with tmpCount := o0.tmpCount + 1 }
+  -- syscall 0: openat(root, tmp, O_CREAT|O_WRONLY|O_TRUNC)
   if dist.stopAfter = some 0 then (o.crash, .crashed)
   else if dist.failAt = some 0 then (o, .panic)
   else
     let fd := internalFd
-    let r := o.openat none (tmpName n) acFlags true
+    let r := o.openat none tmp acFlags true
     match r.2 with
     | some _ => (r.1, .panic)
     | none =>
@@ -209,7 +215,7 @@ def acRun (o : Os) (d n : String) (data : Bytes) (dist : Disturb) : Os × AcOut 
           if dist.stopAfter = some (k + 1) then (o2.crash, .crashed)
           else if dist.failAt = some (k + 1) then ((o2.close fd).1, .panic)
           else
-            let r3 := o2.renameat (tmpName n) (some d) n
+            let r3 := o2.renameat tmp (some d) n
             match r3.2 with
             | some _ => ((r3.1.close fd).1, .panic)
             | none =>
